@@ -77,6 +77,18 @@ func c17Cases(seed uint64, tier string) []core.Case {
 			continue
 		}
 		cs := p.Cases(rng.Uint64(), "quick")
+		if pid == "C19" {
+			// the histories that send packets out (their commitments carry a timeout computed by this chain) first
+			var out, rest []core.Case
+			for _, x := range cs {
+				if strings.Contains(x.ID, "outbound") {
+					out = append(out, x)
+				} else {
+					rest = append(rest, x)
+				}
+			}
+			cs = append(out, rest...)
+		}
 		for i := 0; i < per && i < len(cs); i++ {
 			k := (i * 7) % len(cs)
 			out = append(out, core.MkCase(fmt.Sprintf("C17-%s-%d", pid, i), c17Spec{Seed: rng.Uint64(), Kind: "workload", Prop: pid, Case: cs[k], Reps: reps}))
